@@ -4,12 +4,15 @@ import gen_iostate as G
 from props import C19 as HS
 from props.base import Part
 
+PROPS_FILES = ["C20", "C20cli"]
+
 RULE = ("(a) engine iostate, timer parts: deterministic scenarios with partial frames, header bytes, injected timer "
         "expiry (IoRef::notify_timeout), service not-ready, keep-alive and frame-read-rate configured: exhaustive "
         "up to the stated length plus random; (b) engine timerrt: REAL-TIME scenarios on a 1 s grid (the real "
         "ntex-io timer wheel and clock, keep-alive 1..4 s, frame-read-rate 1..2 s) on the bare dispatcher and on "
         "real v3/v5 MqttServer and client endpoints: steady traffic, traffic that stops, partial frames "
-        "trickling, CONNECT in time / late / never, client PINGREQ cadence; non-trivial = a timeout ended the "
+        "trickling, CONNECT in time / late / never, client PINGREQ cadence with the client's own keep-alive and with "
+        "a Server Keep Alive in CONNACK (client asked for none / less / more); non-trivial = a timeout ended the "
         "connection or a timer was re-armed by traffic")
 ASSUMPTIONS = [
     "ntex-io's timer wheel and the wall clock are assumed, not modelled: ONE restartable timer slot per "
@@ -217,7 +220,10 @@ class RtPart(Part):
                 return "0,4,%d" % horizon
             return "1"
         # clients
-        t_ack = next((op[0] for op in ops if op[1] in (30, 33)), None)
+        t_ack = next((op[0] for op in ops if op[1] in (30, 33, 341, 342, 343)), None)
+        first_ack = next((op[1] for op in ops if op[1] in (30, 33, 341, 342, 343)), None)
+        if kind == 15 and first_ack is not None and first_ack > 340:
+            ka = first_ack - 340          # Server Keep Alive replaces the client's own value [MQTT-3.2.2-21]
         t_close = next((op[0] for op in ops if op[1] == 3), None)
         for n, f in enumerate(steps):
             pings = sum(1 for c in f[1:] if c == 192)
